@@ -12,12 +12,12 @@ namespace Rlib.Segtree
 theorem ite_lt_assoc (a b c : Int) :
     (if (if a < b then a else b) < c then (if a < b then a else b) else c) =
     (if a < (if b < c then b else c) then a else (if b < c then b else c)) := by
-  split <;> split <;> (try split) <;> (try split) <;> omega
+  split <;> split <;> (try split) <;> omega
 
 theorem ite_gt_assoc (a b c : Int) :
     (if (if a > b then a else b) > c then (if a > b then a else b) else c) =
     (if a > (if b > c then b else c) then a else (if b > c then b else c)) := by
-  split <;> split <;> (try split) <;> (try split) <;> omega
+  split <;> split <;> (try split) <;> omega
 
 theorem minItem_lawful : Lawful minItem where
   op_assoc := ite_lt_assoc
@@ -251,7 +251,7 @@ theorem affHashItem_lawful : Lawful affHashItem where
 theorem chApply_compose (m o : Nat × Nat) (c : Nat) : chApply (chCompose m o) c = chApply m (chApply o c) := by
   obtain ⟨mk, mc⟩ := m; obtain ⟨ok, oc⟩ := o
   simp only [chApply, chCompose]
-  by_cases h1 : mk = 0 <;> by_cases h2 : ok = 0 <;> simp [h1, h2] <;> omega
+  by_cases h1 : mk = 0 <;> by_cases h2 : ok = 0 <;> (simp [h1, h2]; try omega)
 
 theorem str_pa_modify (x : StrCat) (m : Nat × Nat) (a : List Nat) :
     strCatItem.pa (strModify x m) a = (strCatItem.pa x a).map (chApply m) := by
